@@ -22,10 +22,13 @@ Inductive pc :=
 | PushLoadTail (v : Z) | PushLoadNext (v : Z) (t : nat) | PushCas (v : Z) (t : nat) (nx : option nat)
 | PushAdd (n : nat) (v : Z) | PushStoreTail (n : nat) (v : Z) | PushYield (v : Z)
 | PopLoadHead | PopLoadTail (h : nat) | PopLoadNext (h : nat) | PopCas (h : nat) (nx : option nat)
-| PopRead (n : nat) (gv : Z) | PopClear (n : nat) (gv : Z) (val : option Z) | PopDec (n : nat) (gv : Z) (val : option Z).
+| PopRead (n : nat) (gv : Z) | PopClear (n : nat) (gv : Z) (val : option Z) | PopDec (n : nat) (gv : Z) (val : option Z)
+| LenLoad.
 
-Inductive op := OpPush (v : Z) | OpPop.
-Inductive res := RPush | RPop (o : option Z) (claimed : Z) | RPopEmpty.
+Inductive op := OpPush (v : Z) | OpPop | OpLen.
+Inductive res := RPush | RPop (o : option Z) (claimed : Z) | RPopEmpty
+  | RPopBusy                       (* Pop lost its CAS on head to another Pop: returns false *)
+  | RLen (z : Z) (poppable : Z).    (* Len() = z; ghost: number of poppable values at the instant of the load *)
 
 Definition next_of (s : shared) (i : nat) : option nat := if (S i <? length (vals s))%nat then Some (S i) else None.
 Fixpoint upd {A} (l : list A) (i : nat) (x : A) : list A :=
@@ -33,7 +36,8 @@ Fixpoint upd {A} (l : list A) (i : nat) (x : A) : list A :=
 
 Definition tstep (s : shared) (p : pc) (o : op) : shared * pc * option res :=
   match p with
-  | Idle => match o with OpPush v => (s, PushLoadTail v, None) | OpPop => (s, PopLoadHead, None) end
+  | Idle => match o with OpPush v => (s, PushLoadTail v, None) | OpPop => (s, PopLoadHead, None) | OpLen => (s, LenLoad, None) end
+  | LenLoad => (s, Idle, Some (RLen (len s) (Z.of_nat (length (q s)))))
   | PushLoadTail v => (s, PushLoadNext v (tail s), None)
   | PushLoadNext v t => (s, PushCas v t (next_of s t), None)
   | PushCas v t nx =>
@@ -62,7 +66,7 @@ Definition tstep (s : shared) (p : pc) (o : op) : shared * pc * option res :=
                            lin := lin s ++ [LPop (nth 0 (q s) 0)] |}, PopRead n (nth 0 (q s) 0), None)   (* LP of Pop *)
            | None => (s, Idle, None)
            end
-      else (s, Idle, None)                                (* CAS failed: returns false; another Pop overlapped *)
+      else (s, Idle, Some RPopBusy)                       (* CAS failed: returns false; another Pop overlapped *)
   | PopRead n gv => (s, PopClear n gv (nth n (vals s) None), None)
   | PopClear n gv val => ({| vals := upd (vals s) n None; head := head s; tail := tail s; len := len s; q := q s; lin := lin s |},
                           PopDec n gv val, None)
@@ -102,7 +106,8 @@ Definition tassert (s : shared) (p : pc) : Prop :=
   | _ => True
   end.
 
-Definition res_ok (r : nat * res) : Prop := match snd r with RPop v g => v = Some g | _ => True end.
+Definition res_ok (r : nat * res) : Prop :=
+  match snd r with RPop v g => v = Some g | RLen z g => 0 <= g <= z | _ => True end.
 
 Record Inv (c : config) : Prop := {
   i_ht : (head (sh c) <= tail (sh c))%nat;
